@@ -7,6 +7,7 @@ import (
 	"fmt"
 	"iter"
 	"log/slog"
+	"math"
 	"os"
 	"runtime"
 	"slices"
@@ -73,6 +74,17 @@ var (
 	sourceFileCache   = make(map[string][]string)
 	sourceFileCacheMu sync.RWMutex
 )
+
+// addSkip adds two skip counts, saturating instead of wrapping around.
+func addSkip(a, b int) int {
+	if b > 0 && a > math.MaxInt-b {
+		return math.MaxInt
+	}
+	if b < 0 && a < math.MinInt-b {
+		return math.MinInt
+	}
+	return a + b
+}
 
 func newStack(depth int, skip int, sourceLines int, sourceDepth int) *stack {
 	// depth comes from StackDepth: grow the buffer as the call stack turns out to need
